@@ -84,8 +84,9 @@ int main(int argc, char** argv) {
     FILE* lf = fopen(argv[1], "r"); if (!lf) return 2; char line[1024]; long idx = -1; signal(SIGVTALRM, on_timer);
     while (fgets(line, sizeof line, lf)) { idx++; size_t L = strlen(line); while (L && (line[L - 1] == '\n' || line[L - 1] == '\r')) line[--L] = 0; if (idx < start || !L) continue;
         CURI = idx; CURPATH = line; printf("BEGIN %ld\n", idx); fflush(stdout);
-        struct itimerval tv = {{0, 0}, {20, 0}}; setitimer(ITIMER_VIRTUAL, &tv, NULL);
-        size_t fn = 0; uint8_t* fb = rd_slurp(line, &fn); v_case(fb ? v_hash(fb, fn, 7) : 0);
+        size_t fn = 0; uint8_t* fb = rd_slurp(line, &fn);
+        /* the bound is proportional to the input: 20 CPU-seconds plus 15 per MiB (an API program makes a few hundred calls, each of which may look at the whole file) */
+        struct itimerval tv = {{0, 0}, {20 + (long)(fn >> 20) * 15, 0}}; setitimer(ITIMER_VIRTUAL, &tv, NULL); v_case(fb ? v_hash(fb, fn, 7) : 0);
         vrng_seed(&R, seed * 31 + (fb ? v_hash(fb, fn, 7) : (uint64_t)idx));   /* the API program is a function of (seed, file content): the libFuzzer target derives the same program */
         for (int mode = 0; mode < 3; mode++) { carquet_error_t err; memset(&err, 0, sizeof err); carquet_reader_options_t ro; carquet_reader_options_init(&ro); ro.use_mmap = mode == IO_MMAP; ro.verify_checksums = (idx + mode) % 2 == 0; carquet_reader_t* rd;
             if (mode == IO_BUFFER) rd = fb ? carquet_reader_open_buffer(fb, fn, &ro, &err) : NULL; else rd = carquet_reader_open(line, &ro, &err);
